@@ -341,6 +341,13 @@ def gen_c03(tier, seed):
             o["progx"] = hx(b"verif-helper-x")
             meta["expect_tag"] = "right"
             meta["path_added"] = 1
+            if r.random() < 0.6:
+                # a different working directory for the child, and decoys of the same bare name in
+                # the parent's directory and in that one: a name without a slash goes through PATH
+                parts += ["LINKVC 0 %s wrong" % hx(b"verif-helper-x"), "MKDIRS %s" % hx(b"elsewhere"),
+                          "LINKVC 0 %s wrong" % hx(b"verif-helper-x"), "CHDIR %s" % hx(b"..")]
+                o["wdx"] = hx(b"elsewhere")
+                meta["wd_rel"] = "elsewhere"
             if penv is not None:
                 parts = [p for p in parts if not p.startswith("ENV ")]
                 meta["penv"] = None
